@@ -85,7 +85,7 @@ XercesDocumentWrapper::XercesDocumentWrapper(
     m_documentElement(0),
     m_nodeMap(theManager),
     m_navigatorAllocator(theManager, 25),
-    m_navigator(0),
+    m_navigator(m_navigatorAllocator.create(this)),
     m_children(theXercesDocument->getChildNodes(),
                *m_navigator),
     m_nodes(theManager),
@@ -99,8 +99,6 @@ XercesDocumentWrapper::XercesDocumentWrapper(
     m_stringPool(theManager, threadSafe == true ? XercesLiaisonXalanDOMStringPool::create(theManager) : XalanDOMStringPool::create(theManager))
 {
     assert(theXercesDocument != 0);
-
-    m_navigator = m_navigatorAllocator.create(this);
 
     if (m_mappingMode == false)
     {
